@@ -98,6 +98,13 @@ CHECKS = {
         technique=MC_TECH + " (all object chains x all object/type functions, differential against reference definitions)",
         design="DESIGN.md §4 C13",
     ),
+    "C14": dict(
+        category="exploration",
+        text="For every writer and option combination (std.manifestYamlDoc x indent_array_in_object x quote_keys, manifestYamlStream x c_document_end, CLI -f yaml x --line-padding, CLI -y; manifestToml/TomlEx/CLI toml; manifestPython/PythonVars; manifestXmlJsonml/CLI; manifestIni/CLI) every value built from 50 format-hostile atoms as string values, keys, key/value pairs and at every nesting position, all trees of depth <= 2 and width <= 2, block-scalar-safe multi-line strings, restricted to each format's domain: the text is parsed by an independent Python reader (PyYAML, tomllib, ast.literal_eval, ElementTree, INI line reader) and must denote the source value; one out-of-domain value per rule must be an error.",
+        note="Trusted: the Python readers as definition of well-formedness and denoted data; the JSONML / INI normalisations in oracles/manifest_oracle.py.",
+        technique=MC_TECH + " (all values over a hostile-atom alphabet x all writer options, differential against independent parsers)",
+        design="DESIGN.md §4 C14",
+    ),
     "C16": dict(
         category="exploration",
         text="A corpus built to contain an enumeration or a choice (field listings in every declaration order, suggestion lists with equally similar candidates, several independent failures, duplicate keys, top-level calls with several missing/unknown arguments, recursion at the frame limit, all 2-layer inheritance chains over 5 member kinds) evaluated in a fresh thread per hash salt under every salt (32 quick / 256 thorough) x pre-interned pool {0,1,100,10000}, and after every history (<= 2 quick / 3 thorough) over {success, runtime error, frame-limit error, failing assert, object assert failure, large allocation} on the same and on a fresh State: byte-identical result / CompactFormat error text. The real executable is run 3 times per program: identical stdout, stderr, exit code.",
